@@ -15,6 +15,7 @@ import (
 	"sync"
 	"time"
 
+	"github.com/pingcap/kvproto/pkg/pdpb"
 	"github.com/tikv/pd/pkg/errs"
 	"github.com/tikv/pd/pkg/typeutil"
 	"github.com/tikv/pd/server/config"
@@ -38,6 +39,7 @@ type op struct {
 	V   int64 // payload
 	Del bool  // write/envput is a delete
 	L   int   // lease number for Expire
+	Rd  bool  // CheckBegin: stop right after the read of the leader record (not at the delete transaction)
 }
 
 var outs = []string{"Ok", "ErrNotApplied", "ErrApplied"}
@@ -93,6 +95,7 @@ type mem struct {
 	alloc  id.Allocator
 	camp   *pend // parked campaign
 	chk    *pend // parked CheckLeader delete
+	chkRd  bool  // ... parked after its read
 }
 
 type world struct {
@@ -207,6 +210,39 @@ func (w *world) exec(o op) string {
 		return w.seen(l.GetMemberId())
 	case "CheckBegin":
 		x := w.mems[o.M]
+		if o.Rd {
+			x.keep.HoldRange()
+			p := &pend{done: make(chan string, 1)}
+			go func() {
+				l, _, again := x.m.CheckLeader()
+				if again {
+					p.done <- "BErr"
+				} else {
+					p.done <- w.seen(l.GetMemberId())
+				}
+			}()
+			select {
+			case <-x.keep.RangeHeld():
+			case r := <-p.done: // no read at all (no etcd leader)
+				return r
+			case <-time.After(15 * time.Second):
+				panic("checkleader: no read")
+			}
+			// the member has read the record; a delete follows iff the record names the member itself
+			own := false
+			if r, err := w.admin.Get(ctx, x.m.GetLeaderPath()); err == nil && len(r.Kvs) > 0 {
+				var l pdpb.Member
+				if l.Unmarshal(r.Kvs[0].Value) == nil && l.GetMemberId() == x.m.ID() {
+					own = true
+				}
+			}
+			if !own {
+				x.keep.ReleaseRange()
+				return <-p.done
+			}
+			x.chk, x.chkRd = p, true
+			return "BStarted"
+		}
 		x.ctl.SetNext(etcdx.Park)
 		p := &pend{done: make(chan string, 1)}
 		go func() {
@@ -229,6 +265,14 @@ func (w *world) exec(o op) string {
 		}
 	case "CheckEnd":
 		x := w.mems[o.M]
+		if x.chkRd {
+			x.ctl.SetNext(modes[o.Out])
+			x.keep.ReleaseRange()
+			r := <-x.chk.done
+			x.ctl.SetNext(etcdx.Pass)
+			x.chk, x.chkRd = nil, false
+			return r
+		}
 		x.ctl.Release(modes[o.Out])
 		r := <-x.chk.done
 		x.chk = nil
@@ -467,7 +511,7 @@ func genCase(r *rng.R, nmem int, withExpiry bool, maxOps int) []op {
 			probe()
 		case 9:
 			if state[m] == 0 {
-				add(op{K: "CheckBegin", M: m})
+				add(op{K: "CheckBegin", M: m, Rd: r.Intn(2) == 0})
 				state[m] = 3
 			}
 		}
@@ -495,6 +539,13 @@ func staleDeleteScenario() []op {
 		{K: "Campaign", M: 0, TTL: 60}, {K: "Read"},
 		{K: "IsLeader", M: 0}, {K: "IsLeader", M: 1},
 	}
+}
+
+// the same with member 0 stopped between its read of the record and whatever it does next
+func staleDeleteAfterReadScenario() []op {
+	l := staleDeleteScenario()
+	l[2].Rd = true
+	return l
 }
 
 func runCase(e *etcdx.Etcd, admin *clientv3.Client, root string, nmem int, ops []op) (caseRec, bool) {
@@ -679,6 +730,7 @@ func main() {
 	}
 	if *replay == "" {
 		add(2, staleDeleteScenario())
+		add(2, staleDeleteAfterReadScenario())
 		add(2, slowKeepAliveScenario())
 		master := rng.New(*seed)
 		for k := 0; k < *n; k++ {
